@@ -479,12 +479,61 @@ def r_unbalanced_product(ctx, rng):
     ctx.event('unbalanced-plain-scalar-product')
 
 
+def r_balanced_huge_core(ctx, rng):
+    """A tensor of ordinary size whose scale is distributed unevenly: one
+    core carries 1e155..1e250 (its square is not a double), its neighbours
+    the inverse, and a bond next to it has rank 1.  Orthogonalisation and
+    rounding (which orthogonalise first) work on scaled norms and must stay
+    finite and right."""
+    import teneva
+    d = int(rng.integers(3, 6))
+    n = [int(rng.integers(2, 5)) for _ in range(d)]
+    r = gen.rand_ranks(rng, d, 3)
+    j = int(rng.integers(d))
+    if j == 0:
+        r[1] = 1
+    elif j == d - 1:
+        r[d - 1] = 1
+    else:
+        r[j + int(rng.integers(2))] = 1
+    Y = gen.cores(rng, n, r, 'normal')
+    s_ = int(rng.integers(155, 251))
+    Y[j] = Y[j] * 10.0 ** s_
+    others = [k for k in range(d) if k != j]
+    if rng.random() < 0.5:
+        for k in others:
+            Y[k] = Y[k] * 10.0 ** (-s_ / len(others))
+    else:
+        k1 = others[int(rng.integers(len(others)))]
+        Y[k1] = Y[k1] * 10.0 ** -s_
+    what = f'core {j} scaled by 1e{s_}, ranks {r}'
+    for k in range(d):
+        for stab in (False, True):
+            res = teneva.orthogonalize(Y, k, use_stab=stab)
+            Z, p = res if stab else (res, 0)
+            # (well-formed and finite is all this property claims; the VALUE
+            # of the stabilised results on such inputs belongs to C16 / C04,
+            # where the mechanism stab-thr-no-rescale is a recorded finding:
+            # truncate(use_stab=True, is_eigh=True) returns the zero tensor
+            # when the scale sits on one core and its inverse on another)
+            wf(ctx, 'orthogonalize', Z, n, f'orthogonalize(k={k}, use_stab='
+                f'{stab})[{what}]')
+    for eigh, stab in itertools.product([True, False], [False, True]):
+        Z = teneva.truncate(Y, 1e-10, 1e12, True, stab, eigh)
+        wf(ctx, 'truncate', Z, n, f'truncate(use_stab={stab}, is_eigh='
+            f'{eigh})[{what}]')
+    ctx.event('extreme-scale:balanced-huge-core')
+    ctx.nontrivial(['extreme-scale', 'balanced-huge-core', d, j])
+
+
 def r_extreme(ctx, rng):
     u_ = rng.random()
-    if u_ < 0.25:
+    if u_ < 0.2:
         return r_accuracy_ratio(ctx, rng)
-    if u_ < 0.5:
+    if u_ < 0.4:
         return r_unbalanced_product(ctx, rng)
+    if u_ < 0.6:
+        return r_balanced_huge_core(ctx, rng)
     """Finite cores whose tensor is so small that Gram matrices underflow
     to exactly zero (norm < 1e-162, float32: < 1e-23), or so large that the
     norm is not a double (> 1e308; stabilised rounding only): the results
